@@ -409,6 +409,31 @@ func cmpMutants(in *instance, t *tree, wrap func([]byte) []byte) []mutant {
 			}}})
 		}
 	}
+	// COORDINATED square modulus: Q holds the same number as P, written with leading zero bytes (another framing
+	// of the same value: 1, 8 padding bytes, and none), and the party's own public entry made consistent with
+	// N = P*P (Pedersen s = 4, t = 9: both squares and units).  A comparison of the two primes that looks at
+	// their encodings instead of their values lets it through.
+	for _, pad := range []int{0, 1, 8} {
+		pad := pad
+		w([]mutant{{Path: "/P+Q+own-entry", Op: fmt.Sprintf("q-is-p-with-%d-leading-zero-bytes-consistent", pad), Rule: "paillier modulus is a square (p = q)", make: func() []byte {
+			n2 := new(big.Int).Mul(P, P)
+			r, _ := faults.Set(t.root, "/Q", append(make([]byte, pad), bigBytes(P, 128)...), false)
+			for i := range pub {
+				ent, _ := pub[i].(map[interface{}]interface{})
+				if ent == nil {
+					continue
+				}
+				if id, _ := ent["ID"].(string); id != string(in.id) {
+					continue
+				}
+				base := fmt.Sprintf("/Public/[%d]", i)
+				r, _ = faults.Set(r, base+"/N", bigBytes(n2, 256), false)
+				r, _ = faults.Set(r, base+"/S", bigBytes(big.NewInt(4), 256), false)
+				r, _ = faults.Set(r, base+"/T", bigBytes(big.NewInt(9), 256), false)
+			}
+			return faults.Encode(r)
+		}}})
+	}
 	for i := range pub {
 		i := i
 		ent, _ := pub[i].(map[interface{}]interface{})
